@@ -150,6 +150,14 @@ impl FrequencyCounter {
     }
 }
 
+#[cfg(cached_verif)]
+impl FrequencyCounter {
+    /// (row seeds, counters per row, raw packed rows). Simulation harness only.
+    pub(crate) fn verif_state(&self) -> (Vec<u64>, u64, Vec<Vec<u8>>) {
+        (self.seeds.to_vec(), self.total_counters, self.matrix.iter().map(|row| row.0.clone()).collect())
+    }
+}
+
 #[cfg(test)]
 mod tests {
     use crate::cache::lfu::frequency_counter::{FrequencyCounter, MAX_VALUE_LOWER_FOUR_BITS, Row};
